@@ -22,6 +22,7 @@ import Proofs.RangeOps
 import Proofs.Fitter
 import Proofs.FitterText
 import Proofs.FitTotal
+import Proofs.FitDelete
 import Proofs.Placement
 import Props.C01
 namespace PM.C11
@@ -603,6 +604,68 @@ theorem replaceStep_total_partial (S : Schema) (hdet : detB S = true) (doc : Nod
     rcases fit_no_internal_partial S hdet doc f t sl hg e h with he | he
     · subst he; exact .inr (.inr (.inl rfl))
     · subst he; exact .inr (.inr (.inr rfl))
+
+/-! ### totality for deletions (the empty slice): full statement
+
+`Transform.delete(f, t)` is `replace(f, t, Slice.empty)`, i.e. `replace_step(doc, f, t, Slice.empty)`
+followed by `step`.  With the empty slice the loop of `fit` has nothing to place; `Fitter.__init__`,
+`must_move_inline` and `close` remain.  Hypotheses, all decidable and evaluated by the driver on the
+generated requests (op `fitGuards`):
+* `detB S` — deterministic content automata;
+* `S.fillersOKB` — every generatable type on an edge of an automaton can be created and filled
+  (otherwise `fill_before` answers with a type `create_and_fill` cannot build: the code puts `None`
+  into a fragment or recurses without bound);
+* `C01.Valid S doc` (`Node.check`) and `S.nodeAttrsOK doc` — element nodes have non-leaf, non-text
+  types and attributes `type.create` accepts (true of every node built through the schema; `check`
+  does not look at attributes);
+* the top node is not a textblock — otherwise `must_move_inline` can reach `to.after(0)`, which raises
+  (schema `doc: "(text | fn)*"`, inline `fn: "para+"`: deleting from inside the `para` to a position in
+  the document's own text raises ValueError in the code and in the model). -/
+
+/-- **`delete_total`** — for every range `f ≤ t` inside a valid document, `replace_step` with the
+    empty slice returns `None` or a step: it does not raise, does not run out of fuel, and never needs
+    a negative `insert`.  (Totality of the model; the exact tie carries it to the code on the sampled
+    inputs.  That the emitted step then *applies* is C01's subject, not shown here.) -/
+theorem delete_total (S : Schema) (hdet : detB S = true) (hfill : S.fillersOKB = true) (doc : Node) (f t : Nat)
+    (hv : C01.Valid S doc) (hattrs : S.nodeAttrsOK doc = true)
+    (htop : S.isTextblockO (S.tyOf doc) = false) (hft : f ≤ t) (ht : t ≤ fsize doc.kids) :
+    ∃ r, replaceStep S doc f t Slice.empty = .ok r :=
+  replaceStep_empty_total S (detS_of_detB S hdet) (fillersOK_of_B S hfill) doc f t hv hattrs htop
+    (by omega) ht
+
+/-- … and the step it returns respects the request (`fitter_respects`; for a replace-around step up
+    to the same monitored conjunct as there) -/
+theorem delete_total_respects (S : Schema) (hdet : detB S = true) (hfill : S.fillersOKB = true) (doc : Node)
+    (f t : Nat) (hv : C01.Valid S doc) (hattrs : S.nodeAttrsOK doc = true)
+    (htop : S.isTextblockO (S.tyOf doc) = false) (hft : f ≤ t) (ht : t ≤ fsize doc.kids) :
+    replaceStep S doc f t Slice.empty = .ok none ∨
+    ∃ st, replaceStep S doc f t Slice.empty = .ok (some st) ∧
+      ((∀ F T G1 G2 sl' ins b, st = .replaceAround F T G1 G2 sl' ins b →
+        noText ((sliceToks' sl').drop ins) = true) → respects (ftoks doc.kids) f t Slice.empty st = true) := by
+  obtain ⟨r, hr⟩ := delete_total S hdet hfill doc f t hv hattrs htop hft ht
+  cases r with
+  | none => exact .inl hr
+  | some st =>
+    exact .inr ⟨st, hr, fun htail => fitter_respects S doc f t Slice.empty st hft (by decide) hr htail⟩
+
+/-- the hypotheses are satisfiable and the Fitter is really reached: `doc(p("ab"), p("cd"))` with
+    `doc: "paragraph+"`, `paragraph: "text*"`; deleting `[2, 6)` joins the paragraphs (not a trivial fit) -/
+example :
+    let nt (name : String) (isText inl : Bool) (dfa : Array DfaState) : NodeType :=
+      { name := name, isText := isText, isInline := isText, isLeaf := isText, isAtom := isText,
+        inlineContent := inl, isolating := false, defining := false, code := false,
+        dfa := dfa, markSet := none, attrs := [] }
+    let S : Schema := { nodes := #[nt "doc" false false #[⟨false, [(1, 1)]⟩, ⟨true, [(1, 1)]⟩],
+                                   nt "paragraph" false true #[⟨true, [(2, 0)]⟩],
+                                   nt "text" true false #[⟨true, []⟩]],
+                        marks := #[], top := 0, textTy := 2 }
+    let doc := Node.elem 0 [] [] [.elem 1 [] [] [.text [97, 98] []], .elem 1 [] [] [.text [99, 100] []]]
+    detB S = true ∧ S.fillersOKB = true ∧ S.checkNode doc = true ∧ S.nodeAttrsOK doc = true ∧
+    S.isTextblockO (S.tyOf doc) = false ∧
+    fitsTriviallyO S doc 2 6 Slice.empty = some false ∧
+    (match replaceStep S doc 2 6 Slice.empty with
+     | .ok (some (.replace 2 6 sl _)) => sl == Slice.empty
+     | _ => false) = true := by decide +kernel
 
 /-! ### the fuelled searches the Fitter calls (PM/FillOrder.lean) -/
 
